@@ -10,6 +10,7 @@ import time
 
 from . import kernel, config, findings, minimise
 
+HS_SHIFT = int(os.environ.get("VSIM_HS_SHIFT", "0"))      # selftest: run every plan under another hash seed
 VERIF = os.path.dirname(os.path.dirname(os.path.abspath(__file__)))
 PY = os.environ.get("VSIM_PYTHON", "/venv/bin/python")
 REPO = os.environ.get("VSIM_REPO", "/repo")
@@ -124,7 +125,7 @@ def check(prop, tier, seed, nruns=None, nworkers=None, quiet=False):
                 c = sent
                 reqs = [{"op": "run", "r": r, "seed": seed, "tier": tier, "want_plan": r < 3}
                         for r in range(c * kernel.CHUNK, min(nruns, (c + 1) * kernel.CHUNK))]
-                pool.submit(reqs, c % pool.K)
+                pool.submit(reqs, (c + HS_SHIFT) % pool.K)
                 sent += 1
                 inflight += 1
             if inflight:
@@ -159,6 +160,10 @@ def check(prop, tier, seed, nruns=None, nworkers=None, quiet=False):
                 samples.append({"run": r, "hashseed": kernel.hashseed_of_run(r), "plan": o["plan"]})
             if o["violations"]:
                 viol_runs.append(r)
+        if os.environ.get("VSIM_DUMP_DIGESTS"):
+            with open(os.environ["VSIM_DUMP_DIGESTS"], "w") as f:
+                for r in order:
+                    f.write("%d %s %s\n" % (r, results[r].get("digest"), len(results[r].get("violations", []))))
         # classify violations
         new_keys = {}
         known_hits = {}
@@ -176,7 +181,7 @@ def check(prop, tier, seed, nruns=None, nworkers=None, quiet=False):
         tmin0 = time.time()
         for key, (r, v) in list(sorted(new_keys.items(), key=lambda kv: kv[1][0]))[:4]:
             plan = results[r]["plan"]
-            hs = kernel.hashseed_of_run(r)
+            hs = kernel.HASHSEEDS[((r // kernel.CHUNK) + HS_SHIFT) % len(kernel.HASHSEEDS)]
             remaining = max(10.0, float(os.environ.get("VSIM_MIN_BUDGET_S", "90")) - (time.time() - tmin0))
             mplan, mres, tried = minimise.minimise(pool, prop, plan, hs, tier, key, budget_s=remaining)
             rdir = os.path.join(VERIF, "replays", PROP)
@@ -233,11 +238,14 @@ def check(prop, tier, seed, nruns=None, nworkers=None, quiet=False):
             print("WARNING: probes never hit: %s" % unreached)
         print("%s %s seed=%d runs=%d distinct=%d compared=%d faults=%s errors=%d wall=%.1fs digest=%s" % (
             PROP, tier, seed, len(order), len(sigs), compared, sum(faults.values()), len(errors), wall, ev["coverage"]["aggregate_digest"]))
+        seen = set()
+        for e in errors:
+            if e.get("error") not in seen and len(seen) < 4:
+                seen.add(e.get("error"))
+                print("HARNESS-ERROR run=%s: %s\n%s" % (e.get("r"), e.get("error"), e.get("tb", "")))
         if new_keys:
             return 1
         if errors:
-            for e in errors[:3]:
-                print("HARNESS-ERROR run=%s: %s\n%s" % (e.get("r"), e.get("error"), e.get("tb", "")))
             return 2
         return 0
     finally:
